@@ -16,5 +16,7 @@ CONSTANTS
   DerivedByIdentity = TRUE
   GuessEachTime = TRUE
   CountLive = TRUE
+  LabelLive = TRUE
+  PayloadLive = TRUE
 INVARIANT PrintLeaf
 CHECK_DEADLOCK FALSE
